@@ -175,6 +175,10 @@ class Sym:
                 v = named_const_value(self.f.facts, o["const_def"])
                 if v is not None:
                     return v
+            if o.get("static") and re.match(r"^&(?!mut )", o.get("ty", "")):
+                v = static_scalar(self.f.facts, o["static"])
+                if v is not None:
+                    return ("constref", v)
             if o.get("ty", "").startswith("std::option::Option<") and o.get("v", "").startswith("{transmute(0x0000000000000000)"):
                 return ("none",)      # the all-zero constant of an Option of a non-null pointer (niche encoding of None)
             return ("const", op_const(o), o["v"], o.get("fn"))
@@ -218,7 +222,49 @@ class Sym:
             return ("discr", self.read_place(rv["pl"]), tuple((a, b) for a, b in (rv.get("variants") or [])))
         if k == "repeat":
             return ("repeat", self.operand(rv["op"]), rv["n"])
+        if k == "tyid":
+            # which of the listed concrete types the value behind a reference has (a dispatch the inliner built for a call through a
+            # trait object): known when the reference points into a place whose type the declarations give
+            v = self.operand(rv["op"])
+            ty = self.type_of_key(v[1]) if v and v[0] == "ref" and isinstance(v[1], tuple) else None
+            if ty in rv["types"]:
+                i = rv["types"].index(ty)
+                return ("const", i, "%d_isize" % i, None)
+            return ("tyid", v)
         return ("unknown",)
+
+    def type_of_key(self, key):
+        """declared type of a place, from the type of its local and the declarations of the structs and enums on the way (None when a type
+        parameter or an unknown type is met)"""
+        f = self.f
+        facts = getattr(f, "facts", None)
+        if facts is None or not isinstance(key[0], int) or key[0] >= len(f.locals):
+            return None
+        ty = f.locals[key[0]]["ty"]
+        variant = None
+        for seg in key[1:]:
+            if ty is None:
+                return None
+            if seg == "*":
+                m = re.match(r"^&('\w+ )?(mut )?(.*)$", ty) or re.match(r"^std::boxed::Box<(?P<x>.*)>$", ty)
+                if not m:
+                    return None
+                ty = m.group(m.lastindex)
+            elif isinstance(seg, str) and seg.startswith("as "):
+                variant = seg[3:]
+            elif isinstance(seg, str) and seg.startswith("."):
+                a = facts.adts.get(re.sub(r"<.*$", "", ty))
+                if a is None:
+                    return None
+                vs = [v for v in a["variants"] if variant is None or v["name"] == variant]
+                variant = None
+                fl = [x for v in vs[:1] for x in v["fields"] if x["name"] == seg[1:]]
+                if not fl:
+                    return None
+                ty = fl[0]["ty"]
+            else:
+                return None
+        return ty
 
     def step_block(self, bb):
         f = self.f
@@ -373,6 +419,32 @@ def promoted_value(f, idx):
 
 
 _NAMED = {}
+
+
+def static_scalar(facts, def_id):
+    """value of a `static` of the crate that is initialised with a literal and only ever borrowed immutably (never `static mut`-style
+    through `&mut` / `*mut`), as a constant term; None otherwise"""
+    k = (id(facts), "static", def_id)
+    if k in _NAMED:
+        return _NAMED[k]
+    v = None
+    for s_ in facts.d.get("statics", []):
+        if s_["id"] == def_id and not s_.get("const"):
+            for b in s_["mir"]["blocks"]:
+                for st in b["stmts"]:
+                    if st["s"] == "assign" and st["lhs"] == {"l": 0, "p": []} and st["rhs"]["rv"] == "use" and st["rhs"]["op"].get("k") == "const":
+                        o = st["rhs"]["op"]
+                        c = op_const(o)
+                        if isinstance(c, (int, bool)):
+                            v = ("const", c, o["v"], None)
+    if v is not None:
+        for g in facts.local_fns.values():
+            for b in g.mir["blocks"]:
+                for st in b["stmts"]:
+                    if st["s"] == "assign" and st["rhs"]["rv"] == "use" and st["rhs"]["op"].get("static") == def_id and not re.match(r"^&(?!mut )", st["rhs"]["op"].get("ty", "")):
+                        v = None
+    _NAMED[k] = v
+    return v
 
 
 def named_const_value(facts, def_id):
